@@ -1,4 +1,102 @@
-From V.model Require Import Base Deb822Lex Deb822Parse Grammar Deb822Edit.
-Theorem C04_placeholder : True. Proof. exact I. Qed.
-Check C04_placeholder : True.
-Print Assumptions C04_placeholder.
+(* C04 — field edits act like list edits, touch nothing else, and survive a re-read.
+   Statements only.
+   tstep  = the model of Paragraph::{set,insert,remove,rename} applied to the n-th paragraph of a
+            document tree (src/lossless.rs over the rowan tree model, coq/model/Deb822Edit.v);
+   sstep  = the same operation on a list of lists of (name, value) pairs (Lossy.l_set etc.);
+   ldocl / lwf = the layouts a live document can have (coq/model/LiveDoc.v): every parsed
+            well-formed document and every document built from canonical pairs is one. *)
+From V.model Require Import Base Deb822Lex Deb822Parse Grammar Lossy Deb822Edit LiveDoc.
+From V.proofs Require Import Deb822EditP LiveDocP.
+
+(* 1. Refinement, for EVERY tree (parsed or built, well-formed or not), every name and value,
+      every history: the live object reports what the list operations give. *)
+Theorem C04_refines : forall ops t, doc_items (fold_left tstep ops t) = fold_left sstep ops (doc_items t).
+Proof. exact tsteps_refine. Qed.
+Check C04_refines : forall ops t, doc_items (fold_left tstep ops t) = fold_left sstep ops (doc_items t).
+Print Assumptions C04_refines.
+
+(* 2. Frame, for every tree: an edit of paragraph n leaves every child of the root other than
+      that paragraph node untouched (other paragraphs, blank lines, comments) ... *)
+Theorem C04_frame_document : forall t n f,
+  (exists A P B, children t = A ++ P :: B /\ is_paragraph P = true /\
+                 length (filter is_paragraph A) = n /\
+                 on_para t n f = Node ROOT (A ++ Node PARAGRAPH (f (children P)) :: B)) \/
+  (length (filter is_paragraph (children t)) <= n /\ on_para t n f = Node ROOT (children t)).
+Proof. exact on_para_frame. Qed.
+Check C04_frame_document : forall t n f,
+  (exists A P B, children t = A ++ P :: B /\ is_paragraph P = true /\
+                 length (filter is_paragraph A) = n /\
+                 on_para t n f = Node ROOT (A ++ Node PARAGRAPH (f (children P)) :: B)) \/
+  (length (filter is_paragraph (children t)) <= n /\ on_para t n f = Node ROOT (children t)).
+Print Assumptions C04_frame_document.
+
+(* ... and inside the paragraph set replaces exactly one entry in place, or appends after
+   terminating the last line (which adds at most one LF to the text in front of the new entry). *)
+Theorem C04_frame_set : forall cs k v,
+  ((exists X e Y, cs = X ++ e :: Y /\ entry_has_key k e = true /\ para_set cs k v = X ++ entry_new k v :: Y) \/
+   (para_set cs k v = ensure_nl_list cs ++ [entry_new k v])) /\
+  exists tl, (tl = [] \/ tl = [10%N]) /\ texts (ensure_nl_list cs) = texts cs ++ tl.
+Proof. intros cs k v. split; [apply para_set_frame|apply texts_ensure_nl_list]. Qed.
+Check C04_frame_set : forall cs k v,
+  ((exists X e Y, cs = X ++ e :: Y /\ entry_has_key k e = true /\ para_set cs k v = X ++ entry_new k v :: Y) \/
+   (para_set cs k v = ensure_nl_list cs ++ [entry_new k v])) /\
+  exists tl, (tl = [] \/ tl = [10%N]) /\ texts (ensure_nl_list cs) = texts cs ++ tl.
+Print Assumptions C04_frame_set.
+
+(* 3. Every parsed well-formed document is a live document. *)
+Theorem C04_parsed_is_live : forall d : doc, wf_doc d = true ->
+  from_str (render d) = Ok (ltree_of (lift d)) /\ lwf (lift d) = true.
+Proof. exact parsed_is_live. Qed.
+Check C04_parsed_is_live : forall d : doc, wf_doc d = true ->
+  from_str (render d) = Ok (ltree_of (lift d)) /\ lwf (lift d) = true.
+Print Assumptions C04_parsed_is_live.
+
+(* 4. Histories: after ANY sequence of set/insert/remove/rename with arguments in the domain
+      (canon_kv: valid name, value of non-empty lines ...; rename: the renamed field carries a
+      value), starting from any live document, the tree is again a live document, reports the
+      list-model content, and its printed text re-reads without error to that content (an
+      empty paragraph prints nothing and is not re-read). *)
+Theorem C04_history : forall ops d, lwf d = true -> ops_ok d ops ->
+  let t' := fold_left tstep ops (ltree_of d) in
+  t' = ltree_of (fold_left astep ops d) /\ lwf (fold_left astep ops d) = true /\
+  doc_items t' = fold_left sstep ops (doc_items (ltree_of d)) /\
+  exists t'', from_str (text t') = Ok t'' /\ doc_items t'' = nonempty_paras (doc_items t').
+Proof. exact C04_history_all. Qed.
+Check C04_history : forall ops d, lwf d = true -> ops_ok d ops ->
+  let t' := fold_left tstep ops (ltree_of d) in
+  t' = ltree_of (fold_left astep ops d) /\ lwf (fold_left astep ops d) = true /\
+  doc_items t' = fold_left sstep ops (doc_items (ltree_of d)) /\
+  exists t'', from_str (text t') = Ok t'' /\ doc_items t'' = nonempty_paras (doc_items t').
+Print Assumptions C04_history.
+
+(* 5. Paragraphs built from name/value pairs (FromIterator) are live paragraphs. *)
+Theorem C04_built_is_live : forall l, Forall (fun kv => canon_kv (fst kv) (snd kv) = true) l ->
+  paragraph_of_pairs l = lblock_tree (LPara (map (fun kv => IField (new_field (fst kv) (snd kv))) l)) /\
+  forall more, wf_items (map (fun kv => IField (new_field (fst kv) (snd kv))) l) more = true.
+Proof. exact paragraph_of_pairs_live. Qed.
+Check C04_built_is_live : forall l, Forall (fun kv => canon_kv (fst kv) (snd kv) = true) l ->
+  paragraph_of_pairs l = lblock_tree (LPara (map (fun kv => IField (new_field (fst kv) (snd kv))) l)) /\
+  forall more, wf_items (map (fun kv => IField (new_field (fst kv) (snd kv))) l) more = true.
+Print Assumptions C04_built_is_live.
+
+(* Handles: in the model an edit through a paragraph handle IS the edit of the shared root
+   (on_para); that rowan really aliases handles is checked by the deb822-edit stream, which
+   performs every edit through handles obtained before all earlier edits. *)
+
+(* Non-vacuity: a history on a parsed document with a comment, an unterminated last line and a
+   duplicate name; all hypotheses hold and the result is computed. *)
+Example C04_ex :
+  let f1 := mk_field [65]%N [32]%N [49]%N [] true in
+  let f2 := mk_field [66]%N [] [50]%N [([32]%N, [51]%N)] true in
+  let f3 := mk_field [65]%N [32]%N [52]%N [] false in
+  let d := lift [BComment [120]%N true; BPara f1 [IComment [121]%N true; IField f2; IField f3]] in
+  let ops := [OSet 0 [67]%N [53; 10; 54]%N; ORemove 0 [65]%N; ORename 0 [66]%N [68]%N; OInsert 0 [66]%N [55]%N] in
+  lwf d = true /\ ops_ok d ops /\
+  doc_items (fold_left tstep ops (ltree_of d)) = [[([68], [50; 10; 51]); ([67], [53; 10; 54]); ([66], [55])]]%N.
+Proof.
+  cbv zeta. split; [vm_compute; reflexivity|]. split; [|vm_compute; reflexivity].
+  cbn [ops_ok]. split; [vm_compute; reflexivity|]. split; [exact I|]. split.
+  - intros its E. vm_compute in E. inversion E; subst. split; [vm_compute; reflexivity|].
+    intros f Hf. vm_compute in Hf. inversion Hf; subst. vm_compute. reflexivity.
+  - split; [vm_compute; reflexivity|exact I].
+Qed.
